@@ -258,6 +258,23 @@ func runCase(w *lib.Writer, in input, g *Generated, lays []Layout) {
 				break
 			}
 		}
+		// a chunk made by loadstring and called from Lua code is a main chunk
+		for _, id := range gg.loaded {
+			if fi, ok := res.Info[[2]int{id, 1}]; !ok || fi.What != "main" || fi.LineDefined != 0 || fi.LastLine != 0 || fi.Cur != 1 {
+				fail(fmt.Sprintf("point %d runs in a loadstring chunk: getinfo(1) gives %+v (expected what=main, lines 0/0, currentline 1)", id, fi))
+			}
+		}
+		// what: "main" exactly for the levels that are a main chunk
+		for _, l := range g.Lines {
+			if l.Src.Kind != "ldef" {
+				continue
+			}
+			if fi, ok := res.Info[[2]int{l.Src.Pt, l.Src.Lvl}]; ok {
+				if (l.Mode == "zero") != (fi.What == "main") {
+					fail(fmt.Sprintf("point %d level %d: what=%q for a %s", l.Src.Pt, l.Src.Lvl, fi.What, map[bool]string{true: "main chunk", false: "function"}[l.Mode == "zero"]))
+				}
+			}
+		}
 		for _, id := range res.ThreadSetBad {
 			fail(fmt.Sprintf("point %d: debug.setlocal(co, 1, 1, v) did not set the first local of the suspended coroutine", id))
 		}
